@@ -68,7 +68,7 @@ class EnipWorld(object):
             gap = sch.choice([60, 250, 1000, 4000], 'pgapmax')
         self.sched, self.net = install.new_world(
             sch, policy=policy, preempt_budget=pb, preempt_gap=gap,
-            max_steps=params.get('max_steps', 60000), max_time=params.get('max_time', 3600.0))
+            max_steps=params.get('max_steps', 150000), max_time=params.get('max_time', 3600.0))
         if policy == 'pct':
             d = sch.between(0, 3, 'pctd')
             self.sched.pct_changes = set(sch.between(1, 400, 'pctk') for _ in range(d))
@@ -445,7 +445,11 @@ class RefSession(object):
         if mode == 'whole' or n < 2:
             return [data]
         if mode == 'bytes':
-            return [data[i:i + 1] for i in range(n)]
+            if n <= 400:
+                return [data[i:i + 1] for i in range(n)]
+            # a long frame byte by byte costs thousands of scheduler steps and shows nothing a shorter one
+            # does not: the first 64 and the last 16 bytes singly, the middle in one piece
+            return [data[i:i + 1] for i in range(64)] + [data[64:n - 16]] + [data[i:i + 1] for i in range(n - 16, n)]
         if mode == 'header':
             cuts = sorted(set([1 + sch.draw(min(n - 1, 23), 'hcut'), min(n - 1, 2 + sch.draw(3, 'lcut'))]))
         else:
